@@ -45,6 +45,17 @@ Proof.
   match goal with Hc : ?x && ?y = true |- _ => apply andb_prop in Hc as [Hc1 Hc2]; assumption end.
 Qed.
 
+(** with the list the attribute query handler takes from p.GetMetadata -- the advertised AttributeService location, see
+    C11_checked_is_advertised / C11_checked_value_from_source --, an answered query named no Destination or exactly that location *)
+Theorem C12_answered_destination : forall decode lookup verify_sig attr userinfo cert_ok1 cert_ok2 sign_ok entity_id m,
+  attrquery_handler decode lookup verify_sig [attr] userinfo cert_ok1 cert_ok2 sign_ok entity_id attrquery_steps = ADone [ASoap m] ->
+  exists q, decode = Some q /\ (aq_destination q = [] \/ aq_destination q = attr).
+Proof.
+  intros decode lookup verify_sig attr userinfo cert_ok1 cert_ok2 sign_ok entity_id m H.
+  destruct (C12_answered _ _ _ _ _ _ _ _ _ _ H) as (q & i & sp & n & u & E & _ & _ & _ & _ & Hd & _).
+  exists q. split; [exact E|]. destruct Hd as [Hd|[Hd|[]]]; auto.
+Qed.
+
 (** the attribute filter: an attribute is disclosed iff it is one of the user's attributes and (nothing was requested or
     its name and name format match a requested attribute) *)
 Theorem C12_filter : forall requested l a, In a (filter_attrs requested l) <->
@@ -97,3 +108,4 @@ Print Assumptions C12_fail_facts.
 Print Assumptions C12_schema.
 Print Assumptions C12_built_response.
 Print Assumptions C12_trailing_content_refused.
+Print Assumptions C12_answered_destination.
